@@ -141,9 +141,20 @@ def ap_tp_list_clause(ctx: Ctx, workload: str, idx: int, r) -> None:
         foreign = r.random() < 0.35  # estimate 'car' paired with a pedestrian ground truth: not scored in the car AP
         e = O.obj3d(3.0 + 10 * k, 1.0, 0.0, ye, lab="car", score=conf, negate_q=r.random() < 0.5)
         g = O.obj3d(3.1 + 10 * k, 1.0, 0.0, yg, lab="pedestrian" if foreign else "car", negate_q=r.random() < 0.5)
+        if idx % 4 == 0:
+            e.semantic_score = 1  # a confidence written as an integer (a detector without scores: every result "1")
         results.append(DynamicObjectWithPerceptionResult(e, g, MatchingLabelPolicy.DEFAULT))
         expect.append(None if foreign else 1.0 - G.yaw_diff_abs(ye, yg) / math.pi)
     ctx.begin_case(workload, idx, clause="ap_tp_list", n=n)
+    if idx % 4 == 0:
+        # equal confidences: the ranking among them is open, the sum of the heading weights is not
+        ap = Ap(APH, list(results), sum(1 for w in expect if w is not None), [AutowareLabel.CAR], MatchingMode.CENTERDISTANCE, [5.0])
+        total = sum(w for w in expect if w is not None)
+        got_total = float(ap.tp_list[-1]) if len(ap.tp_list) else 0.0
+        ctx.count("C09.ap_tp_lists_checked")
+        ctx.count("C09.integer_confidence_lists")
+        ctx.check(abs(got_total - total) <= 1e-9, "C09/tp_list_not_cumulative_heading_weights_of_own_pairs", dict(n=n, integer_confidences=True, total=got_total, expected_total=total), "TPMetricsAph.get_value")
+        return
     ap = Ap(APH, list(results), sum(1 for w in expect if w is not None), [AutowareLabel.CAR], MatchingMode.CENTERDISTANCE, [5.0])
     cum, c = [], 0.0
     for w in expect:
